@@ -46,6 +46,8 @@ def plan(seed, subbatch):
     if mult and cfg.random() < 0.75:
         a = cfg.choice(mult)
         tfs += [a, a, cfg.choice(mult)]
+        if cfg.random() < 0.15:
+            tfs.append(world.day_shifted(a, cfg.randint(1, 2)))   # a span differing from a's by whole days
     members = sample_members(cfg, cfg.randint(1, 4), tfs, max_period=8)
     if level_tf:
         # settings bake the inherited Hexital-level timeframe into the name on a rebuild ("EMA_5" comes
@@ -66,6 +68,7 @@ def plan(seed, subbatch):
     n = planlib.pick_n(cfg, (2, 12), (8, 60), (30, 200))
     widest = max([tf_seconds(m["common"]["timeframe"]) if m["common"].get("timeframe") else tf_seconds(level_tf) if level_tf else base_s
                   for m in members])
+    widest = min(widest, 120 * base_s)      # a day-shifted member timeframe does not scale the outages
     if cfg.random() < 0.2:
         hexcfg["lifespan_s"] = max(widest * cfg.randint(8, 40), base_s * n // 2)
     if subbatch == "calm":
